@@ -726,6 +726,14 @@ class CompilerPassGenerateCode(CompilerPass):
         slice_ = self.compile_node(node.slice)
 
         if isinstance(value, (list, tuple)):
+            index = slice_.value if isinstance(slice_, IC10Operand) else slice_
+            if isinstance(index, (int, float)):
+                # index known at compile time (e.g. -1): index like Python does
+                try:
+                    data.result = value[index]
+                except (IndexError, TypeError) as e:
+                    raise CompilerError(f"Invalid list index {index}: {e}", node)
+                return
             return self._handle_constant_array_dynamic_index_access(node, value, slice_)
 
         res = value[slice_]
